@@ -171,9 +171,9 @@ def candidate_arg(data, mode, rng, spec, subset=True):
     raise ValueError(mode)
 
 
-def run_query(spec, data, candidates, b, seed, timeout=30):
-    """Run the real strategy. Returns dict(q, U, err, calls)."""
-    qs = spec.make(seed)
+def run_query(spec, data, candidates, b, seed, timeout=30, qs=None):
+    """Run the real strategy (a fresh object, or `qs` re-used). Returns dict(q, U, err, calls)."""
+    qs = spec.make(seed) if qs is None else qs
     kw = spec.kwargs(data, seed)
     res = dict(q=None, U=None, err=None, calls=[])
     with SimpleBatchSpy(spy_generator=spec.name in SEQ_CHOICE) as spy:
